@@ -209,8 +209,8 @@ def model_check_families(binary, workdir, tier):
     return out
 
 
-def validate_traces(files, workdir, timeout=3000):
-    """Concatenate traces, run TLC with Trace.tla, parse per-formula counts and violations."""
+def _validate_chunk(args):
+    files, workdir, timeout = args
     stage_spec(workdir)
     index = []  # (file, first global line, number of lines)
     total = 0
@@ -224,33 +224,67 @@ def validate_traces(files, workdir, timeout=3000):
     rc, output, wall = tlc(workdir, "Trace.tla", "Trace.cfg", workers=1, timeout=timeout)
     with open(os.path.join(workdir, "tlc.out"), "w") as fh:
         fh.write(output)
+    os.remove(os.path.join(workdir, "trace.ndjson"))
     formulas, violations, consumed = {}, [], None
     divergences, conformance = [], None
+
+    def locate(gl):
+        for (f, first, n) in index:
+            if first <= gl < first + n:
+                return f, gl - first + 1
+        return None, 0
+
     for t in parse_tuples(output):
         if t[0] == "COUNT":
             formulas[t[1]] = {"exercised": t[2], "failed": t[3]}
         elif t[0] == "VIOLATED":
-            gl = t[2]
-            for (f, first, n) in index:
-                if first <= gl < first + n:
-                    violations.append({"formula": t[1], "trace": f, "line": gl - first + 1, "seq": t[3], "kind": t[4]})
-                    break
+            f, ln = locate(t[2])
+            if f:
+                violations.append({"formula": t[1], "trace": f, "line": ln, "seq": t[3], "kind": t[4]})
         elif t[0] == "DIVERGED":
-            gl = t[1]
-            for (f, first, n) in index:
-                if first <= gl < first + n:
-                    divergences.append({"trace": f, "line": gl - first + 1, "seq": t[2], "kind": t[3], "what": t[4], "detail": str(t[5:])[:300]})
-                    break
+            f, ln = locate(t[1])
+            if f:
+                divergences.append({"trace": f, "line": ln, "seq": t[2], "kind": t[3], "what": t[4], "detail": str(t[5:])[:300]})
         elif t[0] == "CONFORMANCE":
             conformance = {"steps_checked": t[1], "diverged": t[2], "unmodelled": t[3]}
         elif t[0] == "CONSUMED":
             consumed = (t[1], t[2])
     m = TLC_STATS.search(output)
     if rc != 0 or consumed is None or consumed[0] != consumed[1] or not formulas:
-        raise MachineryError("TLC trace validation did not complete (rc=%s consumed=%s): %s" % (rc, consumed, output[-3000:]))
+        return {"error": "TLC trace validation did not complete (rc=%s consumed=%s): %s" % (rc, consumed, output[-3000:])}
     return {"formulas": formulas, "violations": violations, "lines": total, "tlc_wall_s": wall,
-            "divergences": divergences[:50], "conformance": conformance,
+            "divergences": divergences, "conformance": conformance,
             "states": int(m.group(2)) if m else total, "generated": int(m.group(1)) if m else total}
+
+
+def validate_traces(files, workdir, timeout=3000, chunk=50, parallel=4):
+    """Run TLC with Trace.tla over all traces (in chunks of `chunk` traces, `parallel` TLC processes at a time);
+    merge per-formula counts, violations and conformance."""
+    from concurrent.futures import ThreadPoolExecutor
+    chunks = [files[i:i + chunk] for i in range(0, len(files), chunk)] or [[]]
+    jobs = [(c, os.path.join(workdir, "chunk%03d" % i), timeout) for i, c in enumerate(chunks)]
+    t0 = time.time()
+    with ThreadPoolExecutor(max_workers=parallel) as ex:
+        results = list(ex.map(_validate_chunk, jobs))
+    for r in results:
+        if "error" in r:
+            raise MachineryError(r["error"])
+    out = {"formulas": {}, "violations": [], "lines": 0, "tlc_wall_s": time.time() - t0, "divergences": [],
+           "conformance": {"steps_checked": 0, "diverged": 0, "unmodelled": 0}, "states": 0, "generated": 0}
+    for r in results:
+        for k, v in r["formulas"].items():
+            o = out["formulas"].setdefault(k, {"exercised": 0, "failed": 0})
+            o["exercised"] += v["exercised"]
+            o["failed"] += v["failed"]
+        out["violations"] += r["violations"]
+        out["divergences"] += r["divergences"]
+        for k in ("lines", "states", "generated"):
+            out[k] += r[k]
+        if r["conformance"]:
+            for k in out["conformance"]:
+                out["conformance"][k] += r["conformance"][k]
+    out["divergences"] = out["divergences"][:50]
+    return out
 
 
 def family_run(tier, seed, use_cache=True):
@@ -378,7 +412,8 @@ def run_property(pid, tier, seed, use_cache=True):
             sel = selection_run(tier, seed, use_cache)
             extra = {k: v for k, v in sel["formulas"].items() if k.startswith(pid + "_") or k.startswith("Conf_")}
             mine.update(extra)
-            viol += [v for v in sel["violations"] if v["formula"].startswith(pid + "_") or (pid == "C15" and v["formula"].startswith("Conf_"))]
+            # exact conformance with the specification's RandomSP (Conf_*) is evidence, not a verdict: only property formulas decide
+            viol += [v for v in sel["violations"] if v["formula"].startswith(pid + "_")]
         mc = val.get("mc") or {"states": 0, "generated": 0}
         fams = val.get("mc_families") or {}
         mstates = mc["states"] + sum(r["states"] for r in fams.values())
